@@ -313,6 +313,36 @@ def diamond(join=-1, outcomes=None, err_route=False):
     return P
 
 
+def policy_catalogue():
+    """Small shapes with task policies (model-checked exhaustively by C08 and run on the real engine)."""
+    out = []
+
+    def prog(order, tasks, oracle):
+        P = Program()
+        P.order = list(order)
+        P.tasks = {k: dict({'kind': 'action', 'succ': [], 'err': [], 'comp': []}, **v) for k, v in tasks.items()}
+        P.oracle = dict(oracle)
+        P.flags = {'retry': True, 'policy': True}
+        return P
+    for joined in (False, True):
+        for last in ('ok', 'err'):
+            for delay in (0, 1):
+                t = {'a': {'succ': [{'to': 'j'}]}, 'b': {'succ': ([{'to': 'j'}] if joined else [])},
+                     'j': {'retry': {'count': 2, 'delay': delay}, 'succ': [{'to': 'z'}]}, 'z': {}}
+                if joined:
+                    t['j']['join'] = -1
+                out.append(('retry2_%s_%s_d%d' % ('join' if joined else 'plain', last, delay),
+                            prog(['a', 'b', 'j', 'z'], t, {'j': ['err', 'err', last]})))
+    out.append(('wait_before_timeout_late', prog(['a', 'b'], {'a': {'wait-before': 2, 'timeout': 3, 'succ': [{'to': 'b'}]}, 'b': {}}, {})))
+    out.append(('wait_before_timeout_early', prog(['a', 'b'], {'a': {'wait-before': 3, 'timeout': 2, 'succ': [{'to': 'b'}], 'err': [{'to': 'b'}]}, 'b': {}}, {})))
+    out.append(('wait_after_ok', prog(['a', 'b'], {'a': {'wait-after': 2, 'succ': [{'to': 'b'}]}, 'b': {}}, {})))
+    out.append(('wait_after_err_retry', prog(['a', 'b'], {'a': {'wait-after': 1, 'retry': {'count': 1, 'delay': 1}, 'err': [{'to': 'b'}]}, 'b': {}},
+                                             {'a': ['err', 'ok']})))
+    out.append(('timeout_retry', prog(['a', 'b'], {'a': {'timeout': 2, 'retry': {'count': 1, 'delay': 1}, 'succ': [{'to': 'b'}]}, 'b': {}}, {'a': ['ok', 'ok']})))
+    out.append(('wait_after_join', prog(['a', 'b', 'j'], {'a': {'succ': [{'to': 'j'}]}, 'b': {'succ': [{'to': 'j'}]}, 'j': {'join': -1, 'wait-after': 1}}, {})))
+    return out
+
+
 def long_branch_shapes(length=6):
     """A join fed by a branch of `length` tasks (b1 -> ... -> bN -> j) and by a short branch (c -> j); the long branch
     breaks at position k (the task fails without an on-error route, or its transition is guarded by a false condition),
